@@ -244,6 +244,11 @@ fn run_history(spec: &Spec, idx: u64, acc: &mut Acc) {
             }
         }
     }
+    let mut domain = spec.domain.clone();
+    if cfg.has_phys() {
+        // O_APPEND semantics differ by design: seeks inside append sessions only on memory-backed configurations
+        domain.append_seeks = false;
+    }
     let lowers = lower_nodes(&built);
     let lower_roots: Vec<(usize, vfs::VfsPath)> = built
         .nodes
@@ -308,7 +313,7 @@ fn run_history(spec: &Spec, idx: u64, acc: &mut Acc) {
         // histories run to completion; unsteered ones run the step, report what is observed and end there
         // (state and reference have diverged once a genuine defect fired).
         let steered = idx % 4 != 0;
-        let mut op = gen_op(&mut rng, &spec.domain, &universe, gen_model);
+        let mut op = gen_op(&mut rng, &domain, &universe, gen_model);
         let mut tainted = false;
         if !spec.domain.avoid.is_empty() {
             let mut tries = 0;
@@ -317,7 +322,7 @@ fn run_history(spec: &Spec, idx: u64, acc: &mut Acc) {
                     tainted = true;
                     break;
                 }
-                op = gen_op(&mut rng, &spec.domain, &universe, gen_model);
+                op = gen_op(&mut rng, &domain, &universe, gen_model);
                 tries += 1;
             }
         }
